@@ -230,6 +230,18 @@ def _h_planar(rec):
 
 HANDLERS["planar"] = _h_planar
 HANDLERS["c12"] = _grid_handler("rt_c12", "C12 unwrap / frozen-leaf training")
+def _h_c14(rec):
+    cls = (rec.get("replay") or {}).get("cls", "")
+    key = cls.replace("_Unconditional", "") if cls else None
+    fails = rt.rt_c14("quick", first_only=True, only=key) if key else []
+    if not fails and os.environ.get("FJVC_REPLAY_SKIP_GRID") != "1":
+        fails = rt.rt_c14("quick", first_only=True)
+    if fails:
+        return True, fails[0]["what"]
+    return False, "static premise violated but eager/jit/vmap agree on the object zoo (the construct may be unreachable for the built objects)"
+
+
+HANDLERS["c14"] = _h_c14
 HANDLERS["losses"] = _grid_handler("rt_c17", "C17 loss re-evaluation")
 HANDLERS["transformed"] = _grid_handler("rt_c03", "C03 change-of-variables")
 HANDLERS["merge_transforms"] = _grid_handler("rt_c03", "C03 change-of-variables")
